@@ -24,6 +24,8 @@ def run(res, pool, tier, seed):
                 job(2, 4, 2, seed, 1, "2x4"), job(3, 3, 2, seed, 3, "3x3"), job(3, 4, 1, seed, 2, "3x4e1")]
     engine.run_jobs(res, jobs, pool)
     res.exhaustive = False
+    import traces
+    traces.run_for(res, ["unit_tests", "driver"], {"C16"}, seed=seed + 8, nsessions=150 if tier == "quick" else 2000)
 
 
 def conv(m, num):
